@@ -191,6 +191,14 @@ let srv_targets dl inst =
       | RSrv (_, _, _, h) when d.dl_rr.r_name = inst && int_of_n d.dl_rr.r_type = 33 -> Some (lower_b h) | _ -> None) dl in
   List.length (List.sort_uniq compare hs) > 1
 
+(* stop_browse of another name that has a PTR record to the instance, in an iteration <= i *)
+let stopped_other_name iters dl i ty inst =
+  let rec take n l = match l with x :: t when n > 0 -> x :: take (n - 1) t | _ -> [] in
+  List.exists (fun it -> List.exists (fun cl -> match cl with
+      | CStop ty2 -> ty2 <> ty && List.exists (fun d -> match d.dl_rr.r_data with
+          | RPtr a -> a = inst && d.dl_rr.r_name = ty2 && d.dl_rr.r_type = ty_ptr | _ -> false) dl
+      | _ -> false) it.i_calls) (take (i + 1) iters)
+
 let refine ifs iters (f : fail) (tag : string) : string =
   let dl = all_dlvs ifs iters in
   match f with
@@ -202,6 +210,8 @@ let refine ifs iters (f : fail) (tag : string) : string =
     if ptr_variants dl ty inst then "alive:ptr-variant" else if srv_targets dl inst then "alive:srv-targets" else tag
   | F04_complete (_, _, _, inst, fresh) -> if fresh && srv_targets dl inst then "complete:srv-targets" else tag
   (* the class excluded by C04_resolved_only_after_found_partial (Model/BrowserKnown.v) *)
+  | F05_dead (i, _, ty, inst, _, srv_live) ->
+    if not srv_live && stopped_other_name iters dl (int_of_n i) ty inst then "dead:stopped-second-name" else tag
   | F04_order _ -> if known_browse_expiring ifs iters then "order:browse-expiring-ptr" else tag
   | _ -> tag
 
@@ -240,6 +250,8 @@ let run_monitor (id : string) (case : string list) (result : string) : string =
     let tr = List.map (fun (e, q) -> { ob_evts = e; ob_qs = q }) obs in
     verdict ifs iters (viol_C04 ifs iters wakes tr)
   | "C05" ->
+    (* the well-formedness condition of C05_no_resolved_again_partial, checked on every case *)
+    if not (fresh_channels iters) then "FAIL[channels] a browse call reuses a channel number" else
     let tr = List.map (fun (e, q) -> { ob_evts = e; ob_qs = q }) obs in
     verdict ifs iters (viol_C05 ifs iters wakes tr)
   | _ -> "BADCASE"
